@@ -84,11 +84,11 @@ type Mood struct {
 }
 
 var moods = []Mood{
-	{550, 50, 160, 190, 20},  // hostile
-	{850, 5, 40, 100, 5},     // mostly benign, faulty validators active
-	{700, 20, 250, 20, 10},   // timeout-happy
-	{900, 0, 60, 40, 0},      // benign
-	{500, 30, 60, 400, 10},   // byzantine-heavy
+	{550, 50, 160, 190, 20}, // hostile
+	{850, 5, 40, 100, 5},    // mostly benign, faulty validators active
+	{700, 20, 250, 20, 10},  // timeout-happy
+	{900, 0, 60, 40, 0},     // benign
+	{500, 30, 60, 400, 10},  // byzantine-heavy
 }
 
 // AsyncRun runs `steps` adversary moves, changing mood every ~80 steps.
